@@ -140,6 +140,9 @@ var hintLemmas = map[string]*hintLemma{
 		return Imp(And(Ge(ch, IntLit(1)), Ge(l, IntLit(0)), Eq(l, u.specBI(ch, IntLit(0), u.specFn("fdiv", l, ch))), Le(l, n)),
 			Le(l, u.specBI(ch, IntLit(0), u.specFn("fdiv", n, ch))))
 	}},
+	"bi-comm": {"bi-comm", 2, func(u *Unit, a []*Term) *Term {
+		return Eq(u.specBI(a[0], IntLit(0), a[1]), u.specBI(a[1], IntLit(0), a[0]))
+	}},
 	"bi-zero": {"bi-zero", 1, func(u *Unit, a []*Term) *Term {
 		return Eq(u.specBI(a[0], IntLit(0), IntLit(0)), IntLit(0))
 	}},
